@@ -93,6 +93,12 @@ func verifyFunc(p *Program, c *FuncContract) (res *FuncResult) {
 		ex.assume(st, facts)
 		fr.freeVars = append(fr.freeVars, hv)
 	}
+	// implicit precondition: a pointer receiver is non-nil (checked at call sites)
+	if recv := fn.Signature.Recv(); recv != nil && len(fr.params) > 0 {
+		if _, ok := recv.Type().Underlying().(*types.Pointer); ok {
+			ex.assume(st, ex.tb.Ne(fr.params[0].C[0], ex.refLit(0)))
+		}
+	}
 	// axioms
 	for _, ax := range p.axioms {
 		env := &Env{ex: ex, st: st, vars: map[string]*Value{}, pkg: c.Pkg}
@@ -120,6 +126,9 @@ func verifyFunc(p *Program, c *FuncContract) (res *FuncResult) {
 			}
 		}
 		for _, e := range c.Ensures {
+			if e.Trusted {
+				continue
+			}
 			cond := ex.evalSpecBool(penv, e.Expr)
 			ex.obligeSpec(r.st, "post", e.Label, cond, e, nil)
 		}
